@@ -291,8 +291,11 @@ def correspondence(ctx, mod, streams, budget_scale=1):
         ver = run_driver(pairs)
         t2 = time.time()
         log("[corr] %s: %d lines, oracle %.1fs, driver %.1fs" % (st["name"], len(lines), t1 - t0, t2 - t1))
+        ctxl = None
         for l, o, v in zip(lines, outs, ver):
-            recs.append({"stream": st["name"], "cfg": st["cfg"], "line": l, "got": o, "verdict": v})
+            if l.split(" ")[0].endswith("_param"):
+                ctxl = l
+            recs.append({"stream": st["name"], "cfg": st["cfg"], "line": l, "got": o, "verdict": v, "context": ctxl})
     return recs
 
 
@@ -418,6 +421,7 @@ def main():
         new_s.sort(key=lambda r: len(r["line"]))
         r = new_s[0]
         rp = write_replay(pid, {"property": pid, "kind": "implementation-violates-spec", "config": r["cfg"],
+                                "context_lines": [r["context"]] if r.get("context") else [],
                                 "op_lines": [r["line"]], "seed": seed, "actual": r["got"], "driver": r["verdict"],
                                 "others": [x["line"] for x in new_s[1:20]], "count": len(new_s)})
         violations.append((rp, False))
